@@ -11,10 +11,10 @@ def p2_lemmas(tier, lengths=None, with_long=True):
     if lengths is None:
         lengths = list(range(2, 11)) if tier == "quick" else list(range(2, 21)) + [22, 24]
     ls = []
-    longs = [22] if tier == "quick" else [21, 22, 23, 25, 28, 32, 40, 48, 64, 65, 66, 67, 70]
+    longs = [21, 22] if tier == "quick" else [21, 22, 23, 25, 28, 32, 40, 48, 64, 65, 66, 67, 70]
     for L in (longs if with_long else []):
         ls.append(Lemma("P2.parseNumber.long.L%d" % L, "verifHarness_P2_ParseNumber", ["zz_verif_p2.go"],
-                        splits=[{"L": L - 2, "first": f, "last": 0, "shape": 1} for f in ((1, 2) if tier == "quick" else range(3))],
+                        splits=[{"L": L - 2, "first": f, "last": 0, "shape": 1} for f in (((0, 2) if L == 21 else (1, 2)) if tier == "quick" else range(3))],
                         opts={"merge_funcs": [PN], "oneshot": True, "timeout_ms": 120000},
                         intr=NumIntrinsics, known=("F2",),
                         desc="as P2.parseNumber on %d bytes where bytes 2..%d are constrained to digits (sign / leading zero / fraction / "
